@@ -394,6 +394,18 @@ where
         preprocessor_and_arch_args.extend(parsed_args.arch_args.to_vec());
         // common_args is used in preprocessing too
         preprocessor_and_arch_args.extend(parsed_args.common_args.to_vec());
+        // An object instrumented for coverage / profiling records where its .gcda and
+        // .gcno files live, which the compiler derives from the output path: the same
+        // source compiled to another output is a different result.
+        let profile_output_path = if parsed_args.profile_generate {
+            parsed_args
+                .outputs
+                .get("obj")
+                .map(|obj| cwd.join(&obj.path).into_os_string())
+        } else {
+            None
+        };
+        preprocessor_and_arch_args.extend(profile_output_path.clone());
 
         let absolute_input_path: Cow<'_, _> = if parsed_args.input.is_absolute() {
             Cow::Borrowed(&parsed_args.input)
@@ -603,6 +615,7 @@ where
         // use in creating a hash key
         let mut common_and_arch_args = parsed_args.common_args.clone();
         common_and_arch_args.extend(parsed_args.arch_args.to_vec());
+        common_and_arch_args.extend(profile_output_path);
 
         let key = {
             hash_key(
